@@ -397,7 +397,7 @@ class StubsLib(StubsBase):
             "asanyarray": Stub(self.np_asarray, "np.asanyarray"),
             "array": Stub(self.np_array, "np.array"),
             "zeros": Stub(lambda c, shape, dtype=DType("float64"): A.zeros(c, shape, self.to_dtype(dtype)), "np.zeros"),
-            "arange": Stub(lambda c, n, dtype=None: A.arange(c, n) if dtype is None else A.astype(c, A.arange(c, n), self.to_dtype(dtype)), "np.arange"),
+            "arange": Stub(lambda c, *a, dtype=None: self.np_arange(c, a, dtype, "numpy"), "np.arange"),
             "take": Stub(lambda c, a, index, axis=None: self.np_take(c, a, index, axis), "np.take"),
             "stack": Stub(lambda c, arrs, axis=0: self.np_stack(c, arrs, axis), "np.stack"),
             "concatenate": Stub(lambda c, arrs, axis=0: self.np_concatenate(c, arrs, axis), "np.concatenate"),
@@ -460,6 +460,15 @@ class StubsLib(StubsBase):
         attrs["s_"].is_index_exp = True
         self.ext["numpy"] = NS("numpy", attrs)
         self.ext["numpy.polynomial.Polynomial"] = None
+
+    def np_arange(self, ctx, a, dtype, backend):
+        if len(a) == 1:
+            r = A.arange(ctx, a[0], backend)
+        elif len(a) in (2, 3):
+            r = A.arange_range(ctx, a[0], a[1], a[2] if len(a) == 3 else 1, backend)
+        else:
+            raise Unsupported("np.arange call form")
+        return r if dtype is None else A.astype(ctx, r, self.to_dtype(dtype))
 
     def np_nan_to_num(self, ctx, x, copy=True, nan=0.0, posinf=None, neginf=None):
         """Model E has no nan/inf: the values are unchanged; with copy=False the argument itself is written."""
@@ -1016,7 +1025,7 @@ class StubsLib(StubsBase):
             "from_delayed": Stub(from_delayed, "da.from_delayed"),
             "asanyarray": Stub(asany, "da.asanyarray"),
             "asarray": Stub(asany, "da.asarray"),
-            "arange": Stub(lambda c, n, chunks=None: A.arange(c, n, "dask"), "da.arange"),
+            "arange": Stub(lambda c, *a, chunks=None, dtype=None: self.np_arange(c, a, dtype, "dask"), "da.arange"),
             "fft": NS("dask.array.fft", {}),
         })
         self.ext["dask.array"] = da
